@@ -5,9 +5,9 @@ CONSTANTS
   Editable = {"d/f", "d/.h", "d/s/g", "d/s/t/k", "a"}
   Deletable = {"d/f", "d/.h", "d/new", "d/s", "d/s/g", "d/s/n2", "d/s/t", "d/s/t/k"}
   Targets <- TargetKeys
-  MaxSteps = 7
-  MaxBuilds = 4
-  MaxEdits = 4
+  MaxSteps = 6
+  MaxBuilds = 3
+  MaxEdits = 3
   MaxSwitch = 1
   WithDB = {TRUE}
 INIT MCInit
